@@ -103,6 +103,8 @@ func renderStmts(ss []rstmt, sb *strings.Builder) {
 				xs = append(xs, a.text())
 			}
 			sb.WriteString("probe(" + strings.Join(xs, ", ") + ")\n")
+		case "setvar":
+			fmt.Fprintf(sb, "ctx.%s = %d\n", s.v, s.lim)
 		case "cloop":
 			lim := strconv.FormatInt(s.lim, 10)
 			if s.limPath != "" {
@@ -735,13 +737,27 @@ func (g *rgen) stmt(depth int) []rstmt {
 				s.lim = s.init
 			}
 		}
+		var pre []rstmt
+		rebind := int64(-1)
+		if s.limPath == "" && r.chance(1, 5) {
+			// the limit is a context variable that the body rebinds: the loop
+			// keeps the limit it read at entry
+			lv := g.id("lim")
+			pre = []rstmt{{kind: "setvar", v: lv, lim: s.lim}}
+			s.limPath = lv
+			rebind = pick(r, []int64{0, s.lim + 2, s.lim + 1})
+			g.count("counter loop whose body rebinds its limit variable")
+		}
 		g.loops = append(g.loops, "c")
 		g.cvars = append(g.cvars, v)
 		s.body = g.loopBody(depth - 1)
+		if rebind >= 0 {
+			s.body = append(s.body, rstmt{kind: "setvar", v: s.limPath, lim: rebind})
+		}
 		g.cvars = g.cvars[:len(g.cvars)-1]
 		g.loops = g.loops[:len(g.loops)-1]
 		g.count("counter loop " + s.op)
-		return []rstmt{s}
+		return append(pre, s)
 	case "rloop":
 		k := fmt.Sprintf("a%d", r.intn(3))
 		s := rstmt{kind: "rloop", arr: "jso." + k, elems: g.arrs[k]}
